@@ -16,7 +16,7 @@ REPO = os.path.abspath(os.environ.get("VERIF_REPO", "/repo"))
 WORK = os.environ.get("VERIF_WORK", os.path.join(VERIF, ".work"))
 DRV_DIR = os.path.join(VERIF, "tools", "factdrv")
 DRV = os.path.join(DRV_DIR, "target", "release", "factdrv")
-EVIDENCE = os.path.join(VERIF, "evidence")
+EVIDENCE = os.environ.get("VERIF_EVIDENCE", os.path.join(VERIF, "evidence"))
 MEMBERS = ["strum", "strum_macros", "strum_tests", "strum_nostd_tests"]
 
 
